@@ -16,6 +16,7 @@ PROP = "C05"
 
 LEAF = ("ns.Leaf", (1, 0), "uint8 v\n@sealed\n")
 OLD = ("ns.Old", (1, 0), "@deprecated\nuint8 v\n@sealed\n")
+SVC = ("ns.Svc", (1, 0), "uint8 a\n@sealed\n---\nuint8 b\n@sealed\n")
 
 
 def _accepts(text: typing.Any, env: typing.Optional[typing.Mapping[str, typing.Any]] = None, full_name: str = "ns.T",
@@ -25,7 +26,7 @@ def _accepts(text: typing.Any, env: typing.Optional[typing.Mapping[str, typing.A
     import pydsdl
 
     d = textio.MemDefinition(full_name, version, text, port, plain_file_name=plain)
-    lookup = [textio.MemDefinition(*LEAF), textio.MemDefinition(*OLD)]
+    lookup = [textio.MemDefinition(*LEAF), textio.MemDefinition(*OLD), textio.MemDefinition(*SVC)]
     try:
         with textio.symbolic_env(env or {}), textio.native_grammar():
             d.read(lookup, [], lambda *_: None, allow)
@@ -315,6 +316,9 @@ VIOLATIONS = [
     ("byte-scalar", "attr1", "*", lambda pre, at, po, p: (pre, _ins(at, p, "byte z"), po)),
     ("utf8-nested-fixed", "attr1", "*", lambda pre, at, po, p: (pre, _ins(at, p, "utf8[<=3][2] u"), po)),
     ("void-array", "attr1", "*", lambda pre, at, po, p: (pre, _ins(at, p, "void3[2] v"), po)),
+    ("service-field", "attr1", "*", lambda pre, at, po, p: (pre, _ins(at, p, "ns.Svc.1.0 sv"), po)),
+    ("service-array", "attr1", "*", lambda pre, at, po, p: (pre, _ins(at, p, "ns.Svc.1.0[2] sv"), po)),
+    ("service-varray", "attr1", "*", lambda pre, at, po, p: (pre, _ins(at, p, "ns.Svc.1.0[<=2] sv"), po)),
     ("bad-width", "attr2", "*", lambda pre, at, po, p: (pre, _ins(at, p, "uint65 w"), po)),
     ("int1", "attr2", "*", lambda pre, at, po, p: (pre, _ins(at, p, "int1 w"), po)),
     ("trunc-signed", "attr2", "*", lambda pre, at, po, p: (pre, _ins(at, p, "truncated int8 w"), po)),
@@ -401,6 +405,8 @@ def make_structure(kind: str, service: str, v1: int, pairs: bool):
                 v = VIOLATIONS[cands[second]]
                 if v1 >= 0 and (v[1] == VIOLATIONS[v1][1]):
                     return True  # same slot: alternatives, not combinable
+                if v1 >= 0 and {v[1], VIOLATIONS[v1][1]} == {"pre", "arity"}:
+                    return True  # the arity edits rebuild the attribute list and may drop a moved @union: could cancel
                 pre, at, po = v[3](pre, at, po, pos + 1)
                 names.append(v[0])
                 bad = True
